@@ -1480,7 +1480,10 @@ class BDD(dd._abc.BDD[_Ref]):
         @param w:
             high edge
         """
-        _request_reordering(self)
+        # a request can be served only by
+        # an enclosing reordering context
+        if self._reordering_context:
+            _request_reordering(self)
         if i < 0:
             raise ValueError(
                 f'The given level: {i = } < 0')
